@@ -60,7 +60,12 @@ def root_children(body, bound=None, horizon=20000):
 
     The subtrees are disjoint and, together with the root execution itself, cover the whole bounded tree."""
     ctx = Ctx([], horizon)
-    body(ctx)
+    try:
+        out = body(ctx)
+    except HorizonHit:
+        out = [("horizon", "")]
+    if out:
+        return []        # the root execution already violates: explore() reports it, nothing to shard
     kids = []
     for i in range(len(ctx.points)):
         kind, n, price, label = ctx.points[i]
@@ -124,6 +129,8 @@ def explore(body, col, bound=None, horizon=20000, max_executions=None, on_exec=N
             break
         if root_only:
             break
+        if out:
+            continue      # a violating execution is reported, not expanded (keeps checks fast on badly broken trees)
         for i in range(len(prefix), len(ctx.points)):
             kind, n, price, label = ctx.points[i]
             cost = ctx.deviations(i)
